@@ -524,9 +524,21 @@ func (n *negation) Parse(ctx *parseContext, parent reflect.Value) (out []reflect
 func conform(t reflect.Type, values []reflect.Value) (out []reflect.Value, err error) {
 	for _, v := range values {
 		for t != v.Type() && t.Kind() == reflect.Ptr && v.Kind() != reflect.Ptr {
-			// This can occur during partial failure.
 			if !v.CanAddr() {
-				return
+				if v.Kind() != reflect.String {
+					// This can occur during partial failure.
+					return
+				}
+				// A captured token destined for a pointer element such as []*int:
+				// conform it to the pointed-to type and point at a copy.
+				elem, err := conform(t.Elem(), []reflect.Value{v})
+				if err != nil || len(elem) != 1 {
+					return nil, err
+				}
+				ptr := reflect.New(t.Elem())
+				ptr.Elem().Set(elem[0].Convert(t.Elem()))
+				v = ptr
+				break
 			}
 			v = v.Addr()
 		}
